@@ -54,6 +54,30 @@ def decodeDir (dir : List UInt8) : List (Nat × Nat) :=
 termination_by dir.length
 decreasing_by simp only [List.length_drop]; omega
 
+/-- **Well-formed directory**, read off the bytes as the format lays them out (nothing of the iterator): the
+directory is a concatenation of blocks followed by a tail shorter than a block header (fewer than 8 bytes — nothing,
+or padding).  A block: its 8-byte header is there; `Block Size` (the dword at +4) counts at least the header, is a
+multiple of four ("each block must start on a 32-bit boundary") and does not reach beyond what is left of the
+directory; what follows the block is again a well-formed directory. -/
+def WellFormedDir (dir : List UInt8) : Prop :=
+  if dir.length < 8 then True
+  else
+    let size := leVal ((dir.drop 4).take 4)
+    if size < 8 ∨ dir.length < size then False
+    else size % 4 = 0 ∧ WellFormedDir (dir.drop size)
+termination_by dir.length
+decreasing_by simp only [List.length_drop]; omega
+
+/-- the same as a decision procedure (the driver's `hyp=`); `C14_wellFormedDir_decides` -/
+def wellFormedDir (dir : List UInt8) : Bool :=
+  if dir.length < 8 then true
+  else
+    let size := leVal ((dir.drop 4).take 4)
+    if size < 8 ∨ dir.length < size then false
+    else decide (size % 4 = 0) && wellFormedDir (dir.drop size)
+termination_by dir.length
+decreasing_by simp only [List.length_drop]; omega
+
 end Pelite.Relocs.Spec
 
 namespace Pelite.Relocs
@@ -67,7 +91,8 @@ def Block.WF (data : Bytes) (b : Block) : Prop :=
 
 instance (data : Bytes) (b : Block) : Decidable (b.WF data) := by unfold Block.WF; infer_instance
 
-/-- well-formed data: every block the iterator finds is well formed -/
+/-- well-formed data, in terms of what the iterator finds: every block it yields is well formed.  (The format-side
+definition on the bytes is `Spec.WellFormedDir`; the two coincide: `C14_wellFormedDir_iff`.) -/
 def WellFormed (data : Bytes) : Prop := ∀ b ∈ blocks data, b.WF data
 
 instance (data : Bytes) : Decidable (WellFormed data) := by unfold WellFormed; infer_instance
